@@ -65,6 +65,18 @@ def _local_target(cn_, n):
 
 def events(cn_, node):
     out = [x for x in PS.default_events(cn_, node) if not (x.kind in ("assign", "inc") and _local_target(cn_, x.node))]
+    top = strip(node, casts=True)
+    if top is not None and top.get("k") == "CXXOperatorCallExpr" and top.get("op") == "<<" and \
+            ((top.get("callee") or {}).get("f") != "ctpg" or "stream" in cn_.fn.facts.T(top.get("t")).lower()):
+        # an insertion chain `s << a << b`: every inserted operand is an event (how the chain is cut into statements
+        # is a matter of style); their order is the business of the dependence order
+        x = top
+        ops = []
+        while x is not None and x.get("k") == "CXXOperatorCallExpr" and x.get("op") == "<<" and len(x.get("c") or []) == 3:
+            ops.append(x["c"][2])
+            x = strip(x["c"][1], casts=True)
+        for o in reversed(ops):
+            out.append(PS.Event("print", cn_.c(o), o))
     for n in walk(node):
         k = n.get("k")
         if k == "CompoundAssignOperator" and not _local_target(cn_, n):
@@ -100,11 +112,13 @@ def select(fx, q, nparams=None, pick=None, enclosing=None):
     return fns
 
 
-def summarise(f):
+def summarise(f, unroll=1):
     cn = Canon(f, uniform=True, noinline=True)
-    conds, nodes = PS.event_conditions(cn, f.body, events_of=events, unroll=1, drop=_drop_noise, versioned=True, cond_events=True)
+    conds, nodes = PS.event_conditions(cn, f.body, events_of=events, unroll=unroll, drop=_drop_noise, versioned=True, cond_events=True)
     # `continue` is control flow inside one iteration: what it skips shows in the conditions of the other events
-    conds = {k: v for k, v in conds.items() if k[0] != "continue"}
+    # the same holds for `break` (the loop condition of the next round sees it) and for a bare `return;` of a void
+    # function (falling off the end is the same exit)
+    conds = {k: v for k, v in conds.items() if k[0] not in ("continue", "break") and k != ("return", "")}
     inits = []
     for i in f.o.get("inits", ()):
         if i.get("member") and i.get("init") is not None and i.get("written"):
@@ -139,7 +153,7 @@ def check(chk, fx, rule, name):
         chk.incomplete("%s: function %s not found / not instantiated" % (rule, g["function"]))
     f = fns[0]
     try:
-        conds, nodes = summarise(f)
+        conds, nodes = summarise(f, g.get("unroll", 1))
     except AnalysisIncomplete:
         raise
     ref = from_json(g["events"])
@@ -160,15 +174,17 @@ def check(chk, fx, rule, name):
     return f
 
 
-def freeze(fx, name, q, contract, nparams=None, param0_contains=None, enclosing=None):
+def freeze(fx, name, q, contract, nparams=None, param0_contains=None, enclosing=None, unroll=1):
     fns = select(fx, q, nparams, enclosing=enclosing)
     if param0_contains:
         fns = [f for f in fns if param0_contains in f.facts.T(f.o["params"][0]["t"])]
     if not fns:
         raise AnalysisIncomplete("cannot freeze %s: %s not found" % (name, q))
-    conds, _ = summarise(fns[0])
+    conds, _ = summarise(fns[0], unroll)
     os.makedirs(GOLDEN_DIR, exist_ok=True)
     d = {"function": q, "contract": contract, "events": to_json(conds)}
+    if unroll != 1:
+        d["unroll"] = unroll
     if nparams is not None:
         d["nparams"] = nparams
     if param0_contains:
